@@ -363,8 +363,24 @@ func execAffinity(t *testing.T, p *Plan) *Result {
 			}
 		}
 	})
+	if p.Prop == "C07" {
+		// borrowed by C07 (a sixteenth of its worlds): with received-support on, "the response travels back to the packet's
+		// true source" - a final answer that is relayed to nobody, or carried to a connection dialled towards the address
+		// the client WROTE while the connection it really came from is open, has not travelled back to it
+		w.Stats["judged:C07"] += w.Stats["judged:C12"]
+		if p.Cfg.Listens[0].receivedSupport() {
+			for _, v := range append([]Violation(nil), w.Viol...) {
+				if v.Prop == "C12" && (v.Rule == "final-answer-not-relayed" || v.Rule == "dial-towards-client") {
+					w.Viol = append(w.Viol, Violation{Prop: "C07", Rule: "answer-never-reached-true-source", Msg: v.Msg, Sig: "ingress=tcp;via=" + v.Rule, Detail: v.Detail})
+				}
+			}
+		}
+	}
 	finish(w, p, r)
 	r.Judged = w.Stats["judged:C12"]
+	if p.Prop == "C07" {
+		r.Judged = w.Stats["judged:C07"]
+	}
 	conns := map[string]int{}
 	for _, op := range p.Ops {
 		conns[op.Conn]++
